@@ -1,8 +1,9 @@
 (* C04 -- pressure step: Young-Laplace equations with a zero-sum least-squares solution.  Statements only.
-   PARTIAL: the clauses on the turning estimate (3%), on least-squares optimality of the bordered normal equations and on the
+   The turning estimate is proved zero on collinear points, invariant under translation and uniform scaling, and odd under reversal
+   of the storage direction (over the reals).  PARTIAL: the 3% clause, least-squares optimality of the bordered normal equations and on the
    0.9 correlation are evaluated by the oracle (harness/props/c04.py), not proved. *)
-From Coq Require Import ZArith QArith List Bool.
-From Forsys Require Import Model.Num Model.PyList Model.PressureSys Proofs.PressureProofs.
+From Coq Require Import Reals ZArith QArith List Bool.
+From Forsys Require Import Model.Num Model.PyList Model.PressureSys Proofs.PressureProofs Proofs.CurvatureProofs.
 Import ListNotations.
 
 (* every equation has exactly one +1 and one -1, at the columns of the interface's two cells *)
@@ -31,6 +32,35 @@ Theorem C04_assign_follows_mapping : forall (keys : list Z) (pressures : list Q)
   nth_error keys i = Some k -> nth_error (assign_pressures 0%Q keys pressures) i = Some (k, nth i pressures 0%Q).
 Proof. intros. apply assign_follows_mapping. assumption. Qed.
 
+(* ---- the turning estimate (edge.py calculate_total_curvature, normalized=False), over the reals ---- *)
+Local Open Scope R_scope.
+(* zero for straight interfaces: any number (>= 2) of collinear points, however they are spaced *)
+Theorem C04_turning_zero_on_straight : forall (x0 y0 u v : R) (ts : list R), (2 <= length ts)%nat ->
+  total_curvature ROps (map (fun t => x0 + u * t) ts) (map (fun t => y0 + v * t) ts)%R = 0%R.
+Proof. exact total_curvature_collinear. Qed.
+(* unchanged by translation and by uniform scaling with any non-zero factor *)
+Theorem C04_turning_similarity_invariant : forall (a b s : R) (xs ys : list R), s <> 0%R -> (2 <= length xs)%nat -> (2 <= length ys)%nat ->
+  total_curvature ROps (map (fun t => a + s * t) xs) (map (fun t => b + s * t) ys)%R = total_curvature ROps xs ys.
+Proof. exact total_curvature_similarity. Qed.
+(* storing the interface's points in the opposite direction negates the estimate ... *)
+Theorem C04_turning_odd_under_reversal : forall xs ys : list R, length xs = length ys -> (2 <= length xs)%nat ->
+  total_curvature ROps (rev xs) (rev ys) = (- total_curvature ROps xs ys)%R.
+Proof. exact total_curvature_reversal. Qed.
+(* ... and with it the whole equation: when the first cell is stored in the opposite rotational sense (so that its interfaces are
+   traversed backwards), row and right-hand side are both negated, i.e. the equation is the same *)
+Theorem C04_equation_direction_independent : forall keys own sign1 r (tension : R) (xs ys : list R),
+  (sign1 <> 0)%Z -> get_row keys own sign1 = Some r -> length xs = length ys -> (2 <= length xs)%nat ->
+  get_row keys own (- sign1)%Z = Some (map Z.opp r) /\
+  (tension * total_curvature ROps (rev xs) (rev ys) = - (tension * total_curvature ROps xs ys))%R.
+Proof. intros keys own sign1 r tension xs ys Hs Hr Hl Hx. split. - now apply row_orientation. - rewrite total_curvature_reversal by assumption. ring. Qed.
+Example C04_turning_straight_example : total_curvature ROps [1; 3; 4; 9]%R [2; 6; 8; 18]%R = 0%R.
+Proof.
+  replace [1; 3; 4; 9]%R with (map (fun t => 0 + 1 * t)%R [1; 3; 4; 9]%R) by (cbn; repeat f_equal; ring).
+  replace [2; 6; 8; 18]%R with (map (fun t => 0 + 2 * t)%R [1; 3; 4; 9]%R) by (cbn; repeat f_equal; ring).
+  apply total_curvature_collinear. cbn. auto with arith.
+Qed.
+Local Close Scope R_scope.
+
 (* the turning estimate of a straight two-point interface vanishes (np.gradient of two points has zero second differences) *)
 Example C04_two_point_zero : Qeq_bool (sum QOps (map (fun k => k) (curvature QOps [0; 3]%Q [1; 5]%Q))) 0 = true.
 Proof. vm_compute. reflexivity. Qed.
@@ -42,3 +72,7 @@ Print Assumptions C04_row_orientation.
 Print Assumptions C04_reinsert_zeros_spec.
 Print Assumptions C04_spread_spec.
 Print Assumptions C04_assign_follows_mapping.
+Print Assumptions C04_turning_zero_on_straight.
+Print Assumptions C04_turning_similarity_invariant.
+Print Assumptions C04_turning_odd_under_reversal.
+Print Assumptions C04_equation_direction_independent.
